@@ -11,6 +11,7 @@ import threading, shutil, os
 import common, vocab
 import evalprops as EP
 import evalharness as H
+import concfile
 from common import hx
 
 RULE = ("2-3 threads evaluating queries that share prefixes or link sub-queries x seeded schedules at cache-operation granularity with up to 3 "
@@ -178,9 +179,10 @@ def run_schedule(task):
 
 
 def clobbering_write(glog):
-    """known finding `progress-write-on-finished-entry`: does some evaluation write progress metadata under a key for which ANOTHER
-    evaluation has meanwhile stored the finished result?  (every cache kind then replaces the finished entry's metadata by the progress
-    record of the late writer while keeping the data) -> (key, writer, owner) | None"""
+    """does some evaluation write progress metadata under a key for which ANOTHER evaluation has meanwhile stored the finished result?
+    (every cache kind then replaces the finished entry's metadata by the progress record of the late writer while keeping the data; the
+    record never says 'ready' — defect fixed in /repo — so the entry is hidden until the late writer stores it again) -> (key, writer, owner) | None
+    Only counted in the evidence (input distribution)."""
     owner = {}
     for t, kind, key in glog:
         if kind == "S":
@@ -240,6 +242,61 @@ def gen_tasks(ctx, count):
     return tasks
 
 
+def gen_file_tasks(ctx):
+    """schedules at FILE-operation granularity (concfile.py): three evaluations sharing a prefix on a file-backed cache.
+    F1: thread 0 is stopped after kA file operations, thread 1 after kB + 1, then 0, 2 and 1 run to completion (two writers of the shared
+        prefix inside each other's write protocol, then a reader); F2: thread 0 is stopped after k file operations, thread 2 runs start to
+        end (a reader inside one writer's protocol), then thread 0 finishes."""
+    rng = ctx.rng
+    big = 2000
+    tasks = []
+    thorough = ctx.tier == "thorough"
+    for bi in range(len(concfile.BACKENDS)):
+        base = H.g_query(rng, 0, 1, special=0.0)
+        qs = [base + "/cat-a", base + "/cat-b", base + "/cat-c"]
+        # how many file operations does one of these evaluations perform (alone, cold cache)?
+        probe = concfile.run_file_schedule((bi, qs, [0] * big + [1] * big, {}))
+        n0 = max(10, min(400, (probe or {}).get("nops", [80])[0]))
+        n1 = max(10, min(400, ((probe or {}).get("nops", [80, 80]) + [80])[1]))
+        f1 = [(ka, kb) for ka in range(1, n0 + 1) for kb in range(0, n1 + 1)]
+        for ka, kb in (f1 if thorough and len(f1) <= 6000 else rng.sample(f1, min(len(f1), 6000 if thorough else 90))):
+            tasks.append((bi, qs, [0] * ka + [1] * (kb + 1) + [0] * big + [2] * big + [1] * big, {}, "F1"))
+        f2 = list(range(1, n0 + 1))
+        for k in (f2 if thorough else rng.sample(f2, min(len(f2), 45))):
+            tasks.append((bi, [qs[0], qs[1], base], [0] * k + [2] * big + [0] * big + [1] * big, {}, "F2"))
+    return tasks
+
+
+def rle(schedule):
+    out = []
+    for x in schedule:
+        if out and out[-1][0] == x:
+            out[-1][1] += 1
+        else:
+            out.append([x, 1])
+    return ", ".join("%d x%d" % (t, n) if n < 1000 else "%d to the end" % t for t, n in out)
+
+
+def judge_file(ctx, tasks, results):
+    for (bi, qs, schedule, dflt, fam), r in zip(tasks, results):
+        name = concfile.BACKENDS[bi]
+        ctx.case("file|%s|%r|%s" % (name, qs, rle(schedule)))
+        ctx.count("file-operation schedules", "%s %s" % (name, fam))
+        case = dict(kind="file-schedule", backend=bi, queries=qs, schedule=schedule, defaults=dflt)
+        if r is None or "error" in r:
+            ctx.violation("file-harness:%s" % name, "%s, threads %r, file-operation schedule [%s]: the run died: %s" % (name, qs, rle(schedule), (r or {}).get("error", "no result")), case)
+            continue
+        ctx.count("file operations per evaluation", str(10 * (max(r["nops"]) // 10)) + "+")
+        for i, (o, s) in enumerate(zip(r["obs"], r["solo"])):
+            a, b = EP.obs_public(o), EP.obs_public(s)
+            if a != b:
+                diff = {k: (a[k], b[k]) for k in a if a[k] != b[k]}
+                ctx.violation("file-thread-result:%s:%s" % (name, fam), "%s, threads %r under the file-operation schedule [%s]: thread %d returns %r, alone it returns %r" % (
+                    name, qs, rle(schedule), i, {k: v[0] for k, v in diff.items()}, {k: v[1] for k, v in diff.items()}), case)
+        for vkey, text in r["findings"]:
+            ctx.violation("file-final-cache:%s:%s" % (name, fam), "%s, threads %r under the file-operation schedule [%s]: at quiescence %s" % (name, qs, rle(schedule), text), case)
+
+
 def judge(ctx, tasks, results):
     for (ci, qs, schedule, dflt), r in zip(tasks, results):
         name = CACHES[ci][0]
@@ -252,20 +309,31 @@ def judge(ctx, tasks, results):
             a, b = EP.obs_public(o), EP.obs_public(s)
             if a != b:
                 diff = {k: (a[k], b[k]) for k in a if a[k] != b[k]}
-                # the known finding: only when the history has the clobbering write AND the symptom is the metadata one (an exception
-                # from the missing metadata keys, or the right value with other metadata) - a wrong VALUE is never excused
-                meta_symptom = (o.get("kind") == "exception" and o.get("exc") == "KeyError") or (
-                    o.get("kind") == "state" and s.get("kind") == "state" and o.get("value") == s.get("value") and o.get("is_error") == s.get("is_error"))
-                key = ("rtq-ambiguous-text" if EP.rtq_ambiguous(qs[i]) else
-                       "progress-write-on-finished-entry" if r.get("clobber") and meta_symptom else "thread-result:%s:%s" % (name, hx(qs[i])))
-                ctx.violation(key, "%s, threads %r under schedule %r: thread %d returns %r, alone it returns %r" % (
-                    name, qs, schedule, i, {k: v[0] for k, v in diff.items()}, {k: v[1] for k, v in diff.items()}), case)
+                key = "rtq-ambiguous-text" if EP.rtq_ambiguous(qs[i]) else "thread-result:%s:%s" % (name, hx(qs[i]))
+                ctx.violation(key, "%s, threads %r under schedule [%s]: thread %d returns %r, alone it returns %r" % (
+                    name, qs, rle(schedule), i, {k: v[0] for k, v in diff.items()}, {k: v[1] for k, v in diff.items()}), case)
         for vkey, text in r["findings"]:
             k = vkey.split(":", 1)[1]
             ctx.violation("rtq-ambiguous-text" if EP.rtq_ambiguous(k) else "final-cache:%s:%s" % (name, vkey),
-                          "%s, threads %r under schedule %r: at quiescence %s" % (name, qs, schedule, text), case)
+                          "%s, threads %r under schedule [%s]: at quiescence %s" % (name, qs, rle(schedule), text), case)
         if switched and len(ctx.samples) < 5:
             ctx.sample(dict(cache=name, queries=qs, schedule=schedule, traces=[l.split(" # ")[-1][:200] for l in r["lines"]]))
+
+
+def load_corpus():
+    import json
+    d = os.path.join(common.VERIF, "corpus", "C12")
+    sched, fsched = [], []
+    if os.path.isdir(d):
+        for f in sorted(os.listdir(d)):
+            if f.endswith(".json"):
+                c = json.load(open(os.path.join(d, f)))["case"]
+                schedule = [t for t, n in c["schedule_rle"] for _ in range(n)]
+                if c["kind"] == "schedule":
+                    sched.append((c["cache"], c["queries"], schedule, c.get("defaults", {})))
+                else:
+                    fsched.append((c["backend"], c["queries"], schedule, c.get("defaults", {}), "corpus"))
+    return sched, fsched
 
 
 def run(ctx):
@@ -276,19 +344,20 @@ def run(ctx):
     if rc != 0:
         ctx.disagree("EvalO.lean is the translation of Eval.lean (gen_evalo.py --check)", "lean/LiquerModel/EvalO.lean", "out of date", "regenerate with harness/gen_evalo.py")
     count = 900 if ctx.tier == "thorough" else 150
-    tasks = gen_tasks(ctx, count)
+    csched, cfsched = load_corpus()
+    tasks = csched + gen_tasks(ctx, count)
     results = common.pmap(run_schedule, tasks)
     judge(ctx, tasks, results)
+    # file-operation granularity on the file-backed caches (oracle only)
+    ftasks = cfsched + gen_file_tasks(ctx)
+    judge_file(ctx, ftasks, common.pmap(concfile.run_file_schedule, [t[:4] for t in ftasks]))
     reqs, impl = [], []
     for (ci, qs, schedule, dflt), r in zip(tasks, results):
         d = ";".join("%s=%s" % (hx(k), vocab.canon(v)) for k, v in dflt.items()) or "-"
         reqs.append("conc.replay %s %s %s %s" % (CACHES[ci][1], d, ",".join(r["events"]) or "-", " ".join(hx(q) for q in qs)))
         impl.append(" | ".join(r["lines"] + [r["cache"]]))
     ans = ctx.driver.ask(reqs)
-    if ans is not None:
-        # runs that contain the clobbering write of the known finding are judged by the oracle only (the model keeps the finished entry)
-        ans = [("UNMODELLED" if r.get("clobber") else a) for a, r in zip(ans, results)]
-        ctx.count("schedules", "with a progress write on a finished entry (known finding: oracle only)", sum(1 for r in results if r.get("clobber")))
+    ctx.count("schedules", "with a progress write on an entry another evaluation has finished", sum(1 for r in results if r.get("clobber")))
     ctx.compare("schedules: per-thread outcome, calls, cache-operation trace, final cache vs Conc model",
                 ["%r %r" % (t[1], t[2]) for t in tasks], impl, None if ans is None else ["UNMODELLED" if "UNMODELLED" in a else a for a in ans])
 
@@ -302,6 +371,10 @@ def search(ctx, broken, disagreements):
 
 def replay(ctx, case):
     c2 = type(ctx)("C12", ctx.tier, ctx.seed)
+    if case.get("kind") == "file-schedule":
+        t = (case["backend"], case["queries"], case["schedule"], case["defaults"], "replay")
+        judge_file(c2, [t], [concfile.run_file_schedule(t[:4])])
+        return c2.violations[0]["what"] if c2.violations else None
     t = (case["cache"], case["queries"], case["schedule"], case["defaults"])
     judge(c2, [t], [run_schedule(t)])
     return c2.violations[0]["what"] if c2.violations else None
